@@ -98,7 +98,7 @@ def children(x):
         slots = [sl for c in type(x).__mro__ for sl in getattr(c, "__slots__", ()) if sl not in ("__dict__", "__weakref__")]
         if slots or not hasattr(x, "__dict__"):
             raise UnknownObject("instance of %s with slots %r / without __dict__" % (type(x).__name__, slots))
-        return list(x.__dict__.items())
+        return role_items(x)
     raise UnknownObject("object of type %s.%s" % (type(x).__module__, type(x).__name__))
 
 
@@ -307,6 +307,138 @@ ATTRS = ["_blocks", "_entries_by_key", "_strings_by_key", "_start_line_in_file",
 ATTR = {n: i + 1 for i, n in enumerate(ATTRS)}
 
 
+
+# ---------------------------------------------------------------------------------------------------------------------------------
+# Attribute ROLES.  The heap model names the attributes of the library's classes as the pinned tree does and lists them in the
+# order in which the pinned constructors assign them.  A rewrite may rename a private attribute or assign in another order
+# without changing anything a caller can observe; so the snapshot does not use the names found in __dict__ but the ROLE each
+# attribute plays, discovered on the tree under test: a probe object of the class is built through its public constructor /
+# setters with recognisable values and its __dict__ is searched for them.  Attributes whose role cannot be established keep
+# their own name (and are then unknown to the encoder, which fails closed as before).
+PINNED_ORDER = {
+    "Field": ["_start_line", "_key", "_value"],
+    "Entry": ["_start_line_in_file", "_raw", "_parser_metadata", "_entry_type", "_key", "_fields"],
+    "String": ["_start_line_in_file", "_raw", "_parser_metadata", "_key", "_value"],
+    "Preamble": ["_start_line_in_file", "_raw", "_parser_metadata", "_value"],
+    "ExplicitComment": ["_start_line_in_file", "_raw", "_parser_metadata", "_comment"],
+    "ImplicitComment": ["_start_line_in_file", "_raw", "_parser_metadata", "_comment"],
+    "ParsingFailedBlock": ["_start_line_in_file", "_raw", "_parser_metadata", "_error", "_ignore_error_block"],
+    "MiddlewareErrorBlock": ["_start_line_in_file", "_raw", "_parser_metadata", "_error", "_ignore_error_block"],
+    "DuplicateBlockKeyBlock": ["_start_line_in_file", "_raw", "_parser_metadata", "_error", "_ignore_error_block", "_key",
+                               "_previous_block"],
+    "DuplicateFieldKeyBlock": ["_start_line_in_file", "_raw", "_parser_metadata", "_error", "_ignore_error_block",
+                               "_duplicate_keys"],
+    "Library": ["_blocks", "_entries_by_key", "_strings_by_key"],
+    "BibtexFormat": ["_indent", "_align_field_values", "_block_separator", "_trailing_comma", "_parsing_failed_comment"],
+    "NameParts": ["first", "von", "last", "jr"],
+}
+_ROLES = {}
+
+
+def _probe(name):
+    """(probe object, {role: predicate on an attribute value})"""
+    import bibtexparser.model as m
+
+    def tag(r):
+        return "\x00role:" + r
+
+    def is_(v):
+        return lambda x: x is v
+
+    def int_(n):
+        return lambda x: type(x) is int and x == n
+    sl, raw = 987001, tag("raw")
+    base = {"_start_line_in_file": int_(sl), "_raw": is_(raw)}
+
+    def with_md(o, roles):
+        roles = dict(base, **roles)
+        roles["_parser_metadata"] = is_(o.parser_metadata)
+        return o, roles
+    if name == "Field":
+        k, v = tag("key"), tag("value")
+        return m.Field(k, v, 987002), {"_key": is_(k), "_value": is_(v), "_start_line": int_(987002)}
+    if name == "Entry":
+        t, k, fl = tag("type"), tag("key"), []
+        return with_md(m.Entry(t, k, fl, sl, raw), {"_entry_type": is_(t), "_key": is_(k), "_fields": is_(fl)})
+    if name == "String":
+        k, v = tag("key"), tag("value")
+        return with_md(m.String(k, v, sl, raw), {"_key": is_(k), "_value": is_(v)})
+    if name == "Preamble":
+        v = tag("value")
+        return with_md(m.Preamble(v, sl, raw), {"_value": is_(v)})
+    if name in ("ExplicitComment", "ImplicitComment"):
+        c = tag("comment")
+        return with_md(getattr(m, name)(c, sl, raw), {"_comment": is_(c)})
+    inner = m.Preamble("v", sl, raw)
+    err = ValueError("probe")
+    if name == "ParsingFailedBlock":
+        return with_md(m.ParsingFailedBlock(err, sl, raw, inner), {"_error": is_(err), "_ignore_error_block": is_(inner)})
+    if name == "MiddlewareErrorBlock":
+        return with_md(m.MiddlewareErrorBlock(inner, err), {"_error": is_(err), "_ignore_error_block": is_(inner)})
+    if name == "DuplicateBlockKeyBlock":
+        k, prev = tag("key"), m.Preamble("w")
+        o = m.DuplicateBlockKeyBlock(k, prev, inner, sl, raw)
+        return with_md(o, {"_error": lambda x: isinstance(x, BaseException), "_ignore_error_block": is_(inner), "_key": is_(k),
+                           "_previous_block": is_(prev)})
+    if name == "DuplicateFieldKeyBlock":
+        dk, e = {tag("dk")}, m.Entry("t", "k", [], sl, raw)
+        o = m.DuplicateFieldKeyBlock(dk, e)
+        return with_md(o, {"_error": lambda x: isinstance(x, BaseException), "_ignore_error_block": is_(e), "_duplicate_keys": is_(dk)})
+    if name == "Library":
+        from bibtexparser.library import Library
+        e, st = m.Entry("t", tag("ek"), []), m.String(tag("sk"), "v")
+        o = Library([e, st])
+        return o, {"_blocks": lambda x: type(x) is list and len(x) == 2 and x[0] is e,
+                   "_entries_by_key": lambda x: isinstance(x, dict) and list(x) == [tag("ek")],
+                   "_strings_by_key": lambda x: isinstance(x, dict) and list(x) == [tag("sk")]}
+    if name == "BibtexFormat":
+        from bibtexparser.writer import BibtexFormat
+        o = BibtexFormat()
+        i, sep, pfc = tag("indent"), tag("sep"), tag("pfc")
+        o.indent, o.value_column, o.block_separator, o.trailing_comma, o.parsing_failed_comment = i, 98, sep, True, pfc
+        return o, {"_indent": is_(i), "_align_field_values": int_(98), "_block_separator": is_(sep), "_trailing_comma": lambda x: x is True,
+                   "_parsing_failed_comment": is_(pfc)}
+    return None, None
+
+
+def roles_of(name):
+    """{attribute name in the tree under test: role (= the pinned tree's attribute name)} for one of the library's classes"""
+    if name not in _ROLES:
+        found = None
+        try:
+            o, want = _probe(name)
+            if o is not None and not getattr(type(o), "__slots__", None):
+                found = {}
+                for k, v in vars(o).items():
+                    hits = [r for r, pred in want.items() if pred(v)]
+                    if len(hits) != 1 or hits[0] in found.values():
+                        found = None
+                        break
+                    found[k] = hits[0]
+                if found is not None and set(found.values()) != set(want):
+                    found = None
+        except Exception:  # noqa: BLE001 - any trouble: the names are taken as they are
+            found = None
+        _ROLES[name] = found
+    return _ROLES[name]
+
+
+def role_items(x):
+    """the instance attributes of x as (role, value) pairs in the pinned order of the roles; what has no role comes last"""
+    t = type(x)
+    if getattr(t, "_verif_probe_class", False):
+        t = ([b for b in t.__mro__[1:] if b.__module__.startswith("bibtexparser")] or [t])[0]
+    name = t.__name__
+    items = list(x.__dict__.items())
+    roles = roles_of(name) if name in PINNED_ORDER else None
+    if roles is None:
+        return items
+    named = [(roles.get(k, k), v) for k, v in items]
+    order = {r: i for i, r in enumerate(PINNED_ORDER[name])}
+    known = sorted([kv for kv in named if kv[0] in order], key=lambda kv: order[kv[0]])
+    return known + [kv for kv in named if kv[0] not in order]
+
+
 def class_code(x):
     t = type(x)
     if getattr(t, "_verif_probe_class", False):
@@ -352,7 +484,7 @@ class Numbering:
         if type(x) in (set, frozenset, tuple):
             return [2, CLS["set" if type(x) is not tuple else "tuple"]] + [[i, self.pv(c)] for i, c in children(x)]
         out = [2, class_code(x)]
-        for k, v in x.__dict__.items():
+        for k, v in role_items(x):
             if k not in ATTR:
                 raise UnknownObject("attribute %s of %s" % (k, type(x).__name__))
             out.append([ATTR[k], self.pv(v)])
